@@ -64,8 +64,8 @@ func buildFloorProbe(t *testing.T) string {
 
 func TestKeySizeFloor(t *testing.T) {
 	const test = "KeySizeFloor"
-	if !vlib.Mine(0) {
-		t.Skip("run by shard 0 only (one build of the probe)")
+	if byName["*paillier.SecretKey"] == nil || !mine(0, byName["*paillier.SecretKey"]) {
+		t.Skip("run by one shard only (one build of the probe)")
 	}
 	type probe struct {
 		typ, what string
